@@ -23,6 +23,8 @@ mod preload_unverified_blocks_channel;
 #[cfg(test)]
 mod tests;
 mod utils;
+#[cfg(ckb_verif)]
+pub mod verif;
 pub mod verify;
 
 pub use chain_controller::ChainController;
